@@ -1,12 +1,15 @@
 """Shared symbolic semantics for the translation validation of C01 (engine E2).
 
 Both programs - the Python source (through CPython's `ast`) and the emitted C++ text (through tv/cppfront.py) - are lowered to one
-small IR and executed symbolically over z3 bit-vectors. Values are (type, term) with type 'int' or 'bool'; ints are signed 64-bit
+small IR and executed symbolically over z3 bit-vectors. Values are (type, term) with type 'int', 'bool', 'size' (C++ std::size_t: same bits,
+unsigned comparisons) or 'list' (bounded: a length term and CAP element terms); ints are signed 64-bit
 vectors and every arithmetic result is *premised* to fit the C++ `int` (32 bit), so neither side wraps inside the claim.
 
 IR expressions: ('var', n) ('int', k) ('bool', b) ('un', op, e) ('bin', op, l, r) ('cmpchain', [e0, op, e1, op, e2 ...])  (python only)
                 ('and', [es]) ('or', [es]) ('ifexp', c, a, b) ('call', f, [args])
-IR statements:  ('decl', type|None, n, e) ('assign', n, e) ('aug', op, n, e) ('if', c, then, else) ('while', c, body)
+                ('index', l, i) ('len', l) ('in', x, l) ('listlit', [es]) ('listcomp', elt, var, iter, cond)  (python only) ('iife', body)  (C++ only)
+IR statements:  ('foreach', var, l, body, index var|None) ('append', n, e) ('setitem', n, i, e)
+                ('decl', type|None, n, e) ('assign', n, e) ('aug', op, n, e) ('if', c, then, else) ('while', c, body)
                 ('for', n, start, cond, step_stmt, body) ('return', e|None) ('break',) ('continue',) ('raise',) ('expr', e)
 The two front ends differ only in how they *group* and *type* - which is exactly what the property is about.
 """
@@ -37,14 +40,40 @@ class Unsupported(Exception):
 	pass
 
 
+CAP = 4  # capacity of the bounded list model: a list value is ('list', (length term, [CAP element terms]))
+_FRESH = [0]
+
+
+def fresh(tag: str):
+	_FRESH[0] += 1
+	return z3.BitVec(f'${tag}{_FRESH[0]}', W)
+
+
 def to_bool(v):
 	t, x = v
+	if t == 'list':
+		raise Unsupported('list in a boolean context')
 	return x if t == 'bool' else x != bv(0)
 
 
 def to_int(v):
+	"""the 64-bit pattern of a scalar ('size' = C++ std::size_t keeps its bits: only comparisons, remainders and shifts read it as unsigned)"""
 	t, x = v
+	if t == 'list':
+		raise Unsupported('list in an arithmetic context')
 	return z3.If(x, bv(1), bv(0)) if t == 'bool' else x
+
+
+def narrow(x):
+	"""conversion of a 64-bit unsigned value to the C++ int: low 32 bits, sign extended"""
+	return z3.SignExt(32, z3.Extract(31, 0, x))
+
+
+def select(elems: list, idx, default):
+	out = default
+	for k in reversed(range(len(elems))):
+		out = z3.If(idx == bv(k), elems[k], out)
+	return out
 
 
 class Outcome:
@@ -58,10 +87,26 @@ class Machine:
 		self.premises = premises  # only the Python run records premises
 		self.unroll = unroll
 		self.depth = 0
+		# conditions that keep an execution out of the trigger region of a *listed* finding class (see tv/worker.py: a difference that
+		# disappears under them is attributed to that class, anything that remains is reported)
+		self.classes: dict = {}
+
+	def tag(self, cls: str, cond, guard) -> None:
+		self.classes.setdefault(cls, []).append(z3.Implies(guard, cond))
 
 	# ---------------------------------------------------------------- expressions
 	def arith(self, op: str, l, r, guard):
 		a, b = to_int(l), to_int(r)
+		if l[0] == 'size' or r[0] == 'size':
+			# C++: the other operand is converted to std::size_t; +, -, *, &, |, ^ have the same bits, % is the unsigned remainder
+			if op in ('+', '-', '*', '&', '|', '^'):
+				res = {'+': a + b, '-': a - b, '*': a * b, '&': a & b, '|': a | b, '^': a ^ b}[op]
+			elif op == '%':
+				self.tag('len-unsigned', z3.And(a >= bv(0), b >= bv(0)), guard)
+				res = z3.URem(a, b)
+			else:
+				raise Unsupported(f'operator {op} on std::size_t')
+			return ('size', res)
 		if op == '+':
 			res = a + b
 		elif op == '-':
@@ -94,9 +139,36 @@ class Machine:
 		if self.premises is not None:
 			self.premises.add(z3.Implies(guard, cond))
 
-	def compare(self, op: str, l, r):
+	def compare(self, op: str, l, r, guard=None):
+		if l[0] == 'list' or r[0] == 'list':
+			raise Unsupported('list comparison')
 		a, b = to_int(l), to_int(r)
+		if l[0] == 'size' or r[0] == 'size':
+			# C++ usual arithmetic conversions: an int compared with a std::size_t is compared as unsigned
+			self.tag('len-unsigned', z3.And(a >= bv(0), b >= bv(0)), guard if guard is not None else z3.BoolVal(True))
+			return ('bool', {'<': z3.ULT(a, b), '<=': z3.ULE(a, b), '>': z3.UGT(a, b), '>=': z3.UGE(a, b), '==': a == b, '!=': a != b}[op])
 		return ('bool', {'<': a < b, '<=': a <= b, '>': a > b, '>=': a >= b, '==': a == b, '!=': a != b}[op])
+
+	# ---------------------------------------------------------------- lists (bounded: length <= CAP)
+	def index(self, lv, iv, guard):
+		if lv[0] != 'list':
+			raise Unsupported('index of a non-list')
+		n, elems = lv[1]
+		i = to_int(iv)
+		if self.lang == 'py':
+			# Python: a negative index counts from the end; outside [-n, n) it raises IndexError (outside the agreement region)
+			idx = z3.If(i < bv(0), i + n, i)
+			self.premise(z3.And(idx >= bv(0), idx < n), guard)
+			self.tag('negative-index', i >= bv(0), guard)
+			return ('int', select(elems, idx, bv(0)))
+		# C++ operator[]: no normalisation; outside [0, size) the behaviour is undefined -> an arbitrary value
+		return ('int', z3.If(z3.And(i >= bv(0), i < n), select(elems, i, bv(0)), fresh('oob')))
+
+	def append(self, lv, v, take, guard):
+		n, elems = lv[1]
+		self.premise(z3.Implies(take, n < bv(CAP)), guard)
+		x = to_int(v)
+		return ('list', (z3.If(take, n + bv(1), n), [z3.If(z3.And(take, n == bv(k)), x, elems[k]) for k in range(CAP)]))
 
 	def expr(self, e, env: dict, guard):
 		k = e[0]
@@ -127,14 +199,14 @@ class Machine:
 			l = self.expr(e[2], env, guard)
 			r = self.expr(e[3], env, guard)
 			if op in ('<', '<=', '>', '>=', '==', '!='):
-				return self.compare(op, l, r)
+				return self.compare(op, l, r, guard)
 			return self.arith(op, l, r, guard)
 		if k == 'cmpchain':
 			items = e[1]
 			vals = [self.expr(items[i], env, guard) for i in range(0, len(items), 2)]
 			conj = []
 			for i in range(len(vals) - 1):
-				conj.append(to_bool(self.compare(items[2 * i + 1], vals[i], vals[i + 1])))
+				conj.append(to_bool(self.compare(items[2 * i + 1], vals[i], vals[i + 1], guard)))
 			return ('bool', z3.And(*conj) if len(conj) > 1 else conj[0])
 		if k == 'rangecond':
 			# Python's range(start, stop, step): i < stop for a positive step, i > stop for a negative one; step == 0 raises ValueError
@@ -159,11 +231,62 @@ class Machine:
 			c = to_bool(self.expr(e[1], env, guard))
 			a = self.expr(e[2], env, z3.And(guard, c))
 			b = self.expr(e[3], env, z3.And(guard, z3.Not(c)))
-			if a[0] == 'bool' and b[0] == 'bool':
-				return ('bool', z3.If(c, a[1], b[1]))
-			return ('int', z3.If(c, to_int(a), to_int(b)))
+			return self.merge(c, a, b)
 		if k == 'call':
 			return self.call(e[1], [self.expr(a, env, guard) for a in e[2]], guard)
+		if k == 'index':
+			return self.index(self.expr(e[1], env, guard), self.expr(e[2], env, guard), guard)
+		if k == 'pylen':
+			lv = self.expr(e[1], env, guard)
+			if lv[0] != 'list':
+				raise Unsupported('iteration over a non-list')
+			return ('int', lv[1][0])
+		if k == 'len':
+			lv = self.expr(e[1], env, guard)
+			if lv[0] != 'list':
+				raise Unsupported('len of a non-list')
+			return ('size' if self.lang == 'cpp' else 'int', lv[1][0])
+		if k == 'in':
+			x = to_int(self.expr(e[1], env, guard))
+			lv = self.expr(e[2], env, guard)
+			if lv[0] != 'list':
+				raise Unsupported('membership in a non-list')
+			n, elems = lv[1]
+			return ('bool', z3.Or(*[z3.And(bv(j) < n, elems[j] == x) for j in range(CAP)]))
+		if k == 'listlit':
+			if len(e[1]) > CAP:
+				raise Unsupported('list literal longer than the bound')
+			vals = [to_int(self.expr(x, env, guard)) for x in e[1]]
+			return ('list', (bv(len(vals)), vals + [bv(0)] * (CAP - len(vals))))
+		if k == 'listcomp':
+			# python only: [elt for var in iter if cond]; the comprehension variable does not leak
+			_, elt, var, it, cond = e
+			lv = self.expr(it, env, guard)
+			if lv[0] != 'list':
+				raise Unsupported('comprehension over a non-list')
+			n, elems = lv[1]
+			res = ('list', (bv(0), [bv(0)] * CAP))
+			for j in range(CAP):
+				inside = bv(j) < n
+				env2 = dict(env)
+				env2[var] = ('int', elems[j])
+				g = z3.And(guard, inside)
+				c = to_bool(self.expr(cond, env2, g)) if cond is not None else z3.BoolVal(True)
+				v = self.expr(elt, env2, z3.And(g, c))
+				res = self.append(res, v, z3.And(inside, c), guard)
+			return res
+		if k == 'iife':
+			# C++ `[&]() -> T { ... }()`: runs in place; the generated bodies only write their own locals
+			outs = self.block(e[1], dict(env), {}, guard)
+			value = None
+			for cond, kind, v, _ in outs:
+				if kind == 'return' and v is not None:
+					value = v if value is None else self.merge(cond, v, value)
+				elif kind == 'raise':
+					self.callee_raises.append(cond)
+			if value is None:
+				raise Unsupported('lambda without value')
+			return value
 		raise Unsupported(f'expression {k}')
 
 	def convert(self, v, typ: str | None):
@@ -171,7 +294,7 @@ class Machine:
 		if typ == 'bool':
 			return ('bool', to_bool(v))
 		if typ == 'int':
-			return ('int', to_int(v))
+			return ('int', narrow(v[1])) if v[0] == 'size' else ('int', to_int(v))
 		return v
 
 	def builtin(self, name: str, args: list, guard):
@@ -184,8 +307,10 @@ class Machine:
 		if name in ('min', 'max') and len(args) == 2:
 			a, b = to_int(args[0]), to_int(args[1])
 			return ('int', z3.If(a < b, a, b) if name == 'min' else z3.If(a > b, a, b))
+		if name == 'len' and len(args) == 1 and args[0][0] == 'list':
+			return ('size' if self.lang == 'cpp' else 'int', args[0][1][0])
 		if name == 'int' and len(args) == 1:
-			return ('int', to_int(args[0]))
+			return ('int', narrow(args[0][1])) if args[0][0] == 'size' else ('int', to_int(args[0]))
 		if name == 'bool' and len(args) == 1:
 			return ('bool', to_bool(args[0]))
 		return None
@@ -225,9 +350,13 @@ class Machine:
 		return value
 
 	def merge(self, cond, a, b):
+		if a[0] == 'list' or b[0] == 'list':
+			if a[0] != b[0]:
+				raise Unsupported('list merged with a scalar')
+			return ('list', (z3.If(cond, a[1][0], b[1][0]), [z3.If(cond, x, y) for x, y in zip(a[1][1], b[1][1])]))
 		if a[0] == 'bool' and b[0] == 'bool':
 			return ('bool', z3.If(cond, a[1], b[1]))
-		return ('int', z3.If(cond, to_int(a), to_int(b)))
+		return ('size' if 'size' in (a[0], b[0]) else 'int', z3.If(cond, to_int(a), to_int(b)))
 
 	# ---------------------------------------------------------------- statements
 	def block(self, stmts: list, env: dict, types: dict, guard):
@@ -268,6 +397,16 @@ class Machine:
 			fixed.append((cond, kind, v, e3))
 		return fixed
 
+	def write_through(self, name: str, v, env: dict, guard) -> dict:
+		ref = getattr(self, 'refs', {}).get(name) if self.lang == 'cpp' else None
+		if ref is None or ref[0] not in env or ref[1] not in env or env[ref[0]][0] != 'list':
+			return env
+		self.tag('foreach-reference', z3.BoolVal(False), guard)
+		n, elems = env[ref[0]][1]
+		pos = to_int(env[ref[1]])
+		env[ref[0]] = ('list', (n, [z3.If(pos == bv(j), to_int(v), elems[j]) for j in range(CAP)]))
+		return env
+
 	def join(self, states: list) -> list:
 		"""merge environments of converging paths (keeps the number of live states at one)"""
 		if len(states) <= 1:
@@ -300,6 +439,8 @@ class Machine:
 				v = self.convert(v, t)
 			env = dict(env)
 			env[name] = v
+			if k == 'assign':
+				env = self.write_through(name, v, env, guard)
 			return [(guard, 'fall', None, env)]
 		if k == 'aug':
 			_, op, name, e = st
@@ -309,6 +450,7 @@ class Machine:
 				v = self.convert(v, types.get(name))
 			env = dict(env)
 			env[name] = v
+			env = self.write_through(name, v, env, guard)
 			return [(guard, 'fall', None, env)]
 		if k == 'if':
 			_, c, then, orelse = st
@@ -319,14 +461,17 @@ class Machine:
 		if k == 'while':
 			return self.loop(st[1], st[2], None, env, types, guard)
 		if k == 'for':
-			_, name, start, cond, step, body = st
+			_, name, start, cond, step, body = st[:6]
+			continue_class = st[6] if len(st) > 6 else None
 			env = dict(env)
 			sv = self.expr(start, env, guard)
+			# C++ `auto i = <start>`: std::size_t when the start value is one (e.g. xs.size() - 1), else int
+			ltype = 'size' if self.lang == 'cpp' and sv[0] == 'size' else 'int'
 			if self.lang == 'cpp':
-				types[name] = 'int'
+				types[name] = ltype
 			outer = env.get(name)
-			env[name] = ('int', to_int(sv))
-			outs = self.loop(cond, body, step, env, types, guard)
+			env[name] = (ltype, to_int(sv))
+			outs = self.loop(cond, body, step, env, types, guard, continue_class)
 			if self.lang == 'cpp':
 				# `for (auto i = ...)`: the loop variable lives in the loop only
 				fixed = []
@@ -339,6 +484,42 @@ class Machine:
 					fixed.append((c2, kind, v, e3))
 				outs = fixed
 			return outs
+		if k == 'foreach':
+			# ('foreach', var, list expr, body, index var | None): desugared to a counted loop over a hidden position
+			_, var, it, body, ivar = st
+			self.hidden = getattr(self, 'hidden', 0) + 1
+			pos = f'$pos{self.hidden}'
+			head = [('assign', var, ('index', it, ('var', pos)))] + ([('assign', ivar, ('var', pos))] if ivar else [])
+			if self.lang == 'cpp':
+				head = [('decl', 'int', var, ('index', it, ('var', pos)))]
+				if it[0] == 'var':
+					# `auto& x`: an assignment to x inside the body writes the list element
+					self.refs = dict(getattr(self, 'refs', {}))
+					self.refs[var] = (it[1], pos)
+			return self.stmt(('for', pos, ('int', 0), ('bin', '<', ('var', pos), ('pylen', it)), ('aug', '+', pos, ('int', 1)), head + body, 'enumerate-continue' if ivar and self.lang == 'py' else None), env, types, guard)
+		if k == 'append':
+			_, name, e = st
+			if name not in env or env[name][0] != 'list':
+				raise Unsupported('append to a non-list')
+			env = dict(env)
+			env[name] = self.append(env[name], self.expr(e, env, guard), z3.BoolVal(True), guard)
+			return [(guard, 'fall', None, env)]
+		if k == 'setitem':
+			_, name, ie, e = st
+			if name not in env or env[name][0] != 'list':
+				raise Unsupported('item assignment to a non-list')
+			n, elems = env[name][1]
+			i = to_int(self.expr(ie, env, guard))
+			x = to_int(self.expr(e, env, guard))
+			if self.lang == 'py':
+				idx = z3.If(i < bv(0), i + n, i)
+				self.premise(z3.And(idx >= bv(0), idx < n), guard)
+				self.tag('negative-index', i >= bv(0), guard)
+			else:
+				idx = i
+			env = dict(env)
+			env[name] = ('list', (n, [z3.If(idx == bv(j), x, elems[j]) for j in range(CAP)]))
+			return [(guard, 'fall', None, env)]
 		if k == 'return':
 			v = self.expr(st[1], env, guard) if st[1] is not None else None
 			return [(guard, 'return', v, env)]
@@ -353,7 +534,7 @@ class Machine:
 			return [(guard, 'fall', None, env)]
 		raise Unsupported(f'statement {k}')
 
-	def loop(self, cond, body, step, env, types, guard):
+	def loop(self, cond, body, step, env, types, guard, continue_class=None):
 		outs = []
 		live = [(guard, env)]
 		for _ in range(self.unroll):
@@ -363,6 +544,8 @@ class Machine:
 				outs.append((z3.And(g, z3.Not(cv)), 'fall', None, en))
 				for c2, kind, v, e2 in self.scoped(body, en, types, z3.And(g, cv)):
 					if kind in ('fall', 'continue'):
+						if kind == 'continue' and continue_class:
+							self.tag(continue_class, z3.BoolVal(False), c2)
 						if step is not None:
 							(c3, _, _, e3), = self.stmt(step, e2, types, c2)
 							nxt.append((c3, e3))
